@@ -5,7 +5,7 @@ from .. import core, s4u, syncgen, syncspec
 class SyncProp(core.Prop):
     """shared by C04-C07: run a generated synchronisation program, replay its kernel-ordered log through the sequential
     specification of vf/syncspec.py"""
-    drivers = ["s4u_interp"]
+    drivers = ["s4u_interp", "pthread_interp"]
     max_workers = 6
     kinds = ("mutex",)
     nontrivial_labels = ()
@@ -21,7 +21,40 @@ class SyncProp(core.Prop):
         mc = syncgen.programs(kinds=tuple(self.kinds) + ("tick",), mc=True, max_actors=3, max_ops=4, max_mutex=2, max_sem=1, max_cond=1,
                               max_bar=1, profile="contention").map(lambda p: {"mc": True, "program": p})
         # (st.one_of() of the same strategy object repeated does not weight it: draw the class explicitly)
-        return st.integers(0, self.mc_share - 1).flatmap(lambda k: mc if k == 0 else real)
+        # pthread programs run through sthread (LD_PRELOAD=libsthread.so): the same objects behind the pthread API
+        pth = syncgen.programs(kinds=tuple(self.kinds) + ("tick",), mc=True, max_actors=4, max_ops=6, max_mutex=2, max_sem=2, max_cond=1,
+                               max_bar=1, profile="contention").map(lambda p: {"sthread": True, "program": p})
+        return st.integers(0, self.mc_share - 1).flatmap(lambda k: mc if k == 0 else (pth if k == 1 else real))
+
+    def check_sthread(self, case):
+        from .. import refsem, sthread
+        oc = core.Outcome()
+        sc = case["program"]
+        oc.labels.append("sthread-case")
+        if not sthread.supported(sc):
+            oc.invalid = True
+            return oc
+        try:
+            ex = refsem.explore(sc, "real", max_states=100000)
+        except refsem.TooBig:
+            oc.invalid = True
+            return oc
+        r, outcome, dl = sthread.run_real(sc)
+        if r.wall_exceeded:
+            raise core.Inconclusive()
+        if r.rc not in (0,) and outcome is None and not dl and r.rc < 0:
+            oc.bad("sthread-run-crashed", "pthread_interp under libsthread.so ended with rc=%s: %s" % (r.rc, r.err[-800:]))
+            return oc
+        complete = ex.complete_outcomes()
+        if outcome is not None:
+            if outcome not in complete:
+                oc.bad("sthread-unreachable-outcome", "the pthread program run through sthread ended with %s, which the reference semantics "
+                       "cannot reach (%d reachable complete outcomes, e.g. %s)" % (outcome, len(complete), sorted(complete)[:3]))
+        elif not ex.deadlocks:
+            oc.bad("sthread-no-outcome", "the pthread program run through sthread printed no outcome (rc=%s, deadlock reported=%s) although "
+                   "the reference semantics has no reachable deadlock; stderr tail: %s" % (r.rc, dl, r.err[-500:]))
+        oc.nontrivial = len(ex.outcomes) >= 2
+        return oc
 
     def check_mc(self, case):
         from .. import mcrun, refsem
@@ -60,6 +93,8 @@ class SyncProp(core.Prop):
     def check(self, case):
         if case.get("mc"):
             return self.check_mc(case)
+        if case.get("sthread"):
+            return self.check_sthread(case)
         oc = core.Outcome()
         log = s4u.run(case, cpu=20, wall=240)
         if log.wall_exceeded:
@@ -98,7 +133,8 @@ class C04(SyncProp):
             "Non-trivial: some locker blocks, or a recursive mutex is acquired through try_lock.")
     assumptions = ["sequential runs (contexts/nthreads:1): the order of request records is the order in which the kernel handles them",
                    "one case in 40 is explored by simgrid-mc without reduction (programs of <= 400 traces) and compared with the reference "
-                   "explorer vf/refsem.py; pthread/sthread executions are not exercised"]
+                   "explorer vf/refsem.py; one case in 20 is the same kind of program written with the pthread API and run through "
+                   "libsthread.so (real run; outcome must be reachable for the reference semantics)"]
 
 
 PROP = C04()
